@@ -69,6 +69,16 @@ func Harness_C18_L1_MsgStep() {
 	twice18(ctx, fn)
 }
 
+// the constructed states of the genesis harnesses: up to one bridge (quick) / two bridges (thorough) with one
+// entry per per-bridge collection (C16's thorough shape — two entries each — run twice exceeds the path budget)
+func buildState18(ctx sdk.Context, k Keeper) {
+	if verifThorough() {
+		buildStateShape(ctx, k, 0, 2, 1)
+		return
+	}
+	buildState(ctx, k)
+}
+
 // genesis export of a constructed state (the shapes of C16): same state, same exported genesis
 func Harness_C18_L1_ExportGenesis() {
 	verifConfig("emptystate", 1)
@@ -77,7 +87,7 @@ func Harness_C18_L1_ExportGenesis() {
 	verifConfig("maporder", 1)
 	k := verifSym[Keeper]("k")
 	ctx := verifSym[sdk.Context]("ctx")
-	buildState(ctx, k)
+	buildState18(ctx, k)
 	fn := func(c sdk.Context) (any, error) { return k.ExportGenesis(c), nil }
 	twice18(ctx, fn)
 }
@@ -90,7 +100,7 @@ func Harness_C18_L1_InitGenesis() {
 	verifConfig("maporder", 1)
 	k := verifSym[Keeper]("k")
 	ctx := verifSym[sdk.Context]("ctx")
-	buildState(ctx, k)
+	buildState18(ctx, k)
 	gs := k.ExportGenesis(ctx)
 	fresh := verifFreshChain(ctx)
 	fn := func(c sdk.Context) (any, error) { k.InitGenesis(c, gs); return nil, nil }
